@@ -101,6 +101,9 @@ structure Report where
   gen : Option Int
   claims : List TP
 
+/-- `defaultGeneration`: the generation key of user data in the old schema (bridge: Gen.C08.defaultGeneration) -/
+def defaultGeneration : Int := -1
+
 /-- `sortedPartitionConsumersByGeneration`: partition ↦ (generation ↦ member), both as association lists -/
 abbrev GenMap := List (TP × List (Int × Member))
 
@@ -117,7 +120,7 @@ def genMapInsert (p : TP) (m : Member) (hasGen : Bool) (g : Int) : GenMap → Ge
 
 def genMapOf (rs : List Report) : GenMap :=
   rs.foldl (fun gm r => r.claims.foldl (fun gm p =>
-    genMapInsert p r.id r.gen.isSome (r.gen.getD (-1)) gm) gm) []
+    genMapInsert p r.id r.gen.isSome (r.gen.getD defaultGeneration) gm) gm) []
 
 /-- entry with the highest generation -/
 def maxGen : List (Int × Member) → Option (Int × Member)
